@@ -399,6 +399,39 @@ ITER_BAD = re.compile(r"Iterator>?::(filter|filter_map|skip|skip_while|take|take
                       r"|slice::<impl \[T\]>::(split\w*|chunks\w*|windows|first|last|get)$|Vec::<T, A>::(truncate|pop|remove|drain|retain\w*|dedup\w*)$")
 
 
+SELECTIVE = re.compile(r"alloc::vec::Vec::<T, A>::(retain|retain_mut|dedup\w*|truncate|drain|split_off|pop|remove|swap_remove|clear|extract_if)$|"
+                       r"slice::<impl \[T\]>::(split_first|split_last|split_at\w*|chunks\w*|windows|partition_dedup\w*)$|core::mem::(take|replace|swap)$")
+
+
+def whole_batch(ctx, prov, rule, rep, tr, name, only=None):
+    """The batch is transmitted whole: between `report(spans)` and the conversion nothing selects among the records (no retain /
+    dedup / truncate / drain / filter on the batch: two records of different traces may share a span id, a batch may hold any
+    number of records) and what try_report receives is the parameter itself."""
+    for g, which in ((rep, "report"), (tr, "try_report")):
+        if only and which not in only:
+            continue
+        bad = []
+        for b in g.calls():
+            t = g.term(b)
+            if g.blocks[b]["cleanup"] or not t["args"]:
+                continue
+            if not (SELECTIVE.search(t["callee"]) or ITER_BAD.search(t["callee"])):
+                continue
+            src = prov.of_operand(g, t["args"][0])
+            if any(x.kind == "param" and x.key == 2 for x in src):
+                bad.append((g.loc(b), t["callee"].rsplit("::", 1)[1]))
+        ctx.check(not bad, rule, g.path, g.span,
+                  "%s::%s applies no selecting operation to the batch it was given (retain / dedup / truncate / drain / filter / take ..)" % (name, which),
+                  "", "selecting calls on the batch: %s: records that fit are not transmitted" % bad, extra="whole-" + which)
+    if not only or "report" in only:
+        for b in rep.calls(lambda t: t["callee"] == tr.path):
+            t = rep.term(b)
+            src = prov.of_operand(rep, t["args"][1]) if len(t["args"]) > 1 else []
+            direct = any(x.kind == "param" and x.key == 2 for x in src)
+            ctx.check(direct, rule, rep.path, rep.loc(b), "%s::report hands try_report the batch it received" % name,
+                      "", "the argument of try_report does not come from report()'s parameter: %s" % origin_strs(src, 4), extra="whole-arg")
+
+
 def once_each(ctx, facts, rule):
     prov = Prov(facts)
     for crate, name, sendrx in (("fastrace_jaeger", "JaegerReporter", r"UdpSocket::send_to$"),
@@ -466,6 +499,7 @@ def once_each(ctx, facts, rule):
             ok, wit = g.must_pass([0], tsites, avoid_edges=e)
             ctx.check(ok and bool(tsites), rule, g.path, g.span, "report() hands every non-empty batch to try_report", "",
                       "a path returns at bb%s without try_report" % wit, extra="report")
+            whole_batch(ctx, prov, rule, g, tr, name)
             cs = tr.calls(lambda t: t["callee"] == conv.path)
             ss = tr.calls_re(sendrx, cleanup=False)
             if not ss and name == "OpenTelemetryReporter":
